@@ -183,6 +183,18 @@ def replay(case):
             t = tf.function_major(x, phi, add_one=cfg['addone'])
             out += cmp_tt(t, want, 'fm')
             out += cmp_tt(tf.function_major(x.astype(np.int64), phi, add_one=cfg['addone']), want, 'fm:int-dtype')
+            # plain Python functions whose return type depends on the argument (ReLU-like: the int 0 on one side, a float on
+            # the other; a hat that is the int 0 outside its support): reference by brute force from the definition
+            relu, hat = (lambda v: max(v, 0)), (lambda v: 1 - abs(v) / 2 if abs(v) < 2 else 0)
+            for fl in ([relu, hat], [hat, relu, (lambda v: v)]):
+                xs_ = x * 0.7 - 0.4                     # non-integer data on both sides of the kinks
+                tpy = tf.function_major(xs_, fl, add_one=cfg['addone'])
+                off_ = 1 if cfg['addone'] else 0
+                vals_ = [np.array([[1.0] * xs_.shape[1]] * off_ + [[float(g(xs_[k, j])) for j in range(xs_.shape[1])] for k in range(xs_.shape[0])])
+                         for g in fl]
+                out += cmp_tt(tpy, psi_from_leaves(vals_), 'fm:python-functions')
+                if out:
+                    break
             if not out:
                 for i in range(len(phi)):
                     c = tf.function_major(x, phi, add_one=cfg['addone'], single_core=i)
